@@ -185,7 +185,7 @@ def do_run(filters):
             drop(wt)
     # RESULTS.tsv: a full run rewrites it; a filtered run replaces the rows of the
     # changes it ran and drops rows of changes that are no longer kept
-    res = os.path.join(SEEDED, "RESULTS.tsv")
+    res = os.environ.get("SEED_RESULTS_FILE") or os.path.join(SEEDED, "RESULTS.tsv")
     merged = {}
     if filters and os.path.exists(res):
         for line in open(res).read().splitlines()[1:]:
